@@ -189,11 +189,11 @@ pub fn towers(d: usize) -> Vec<R> {
     out
 }
 
-/// wide terms: every variable-arity constructor with 9, 17 and 40 components (beyond any small
+/// wide terms: every variable-arity constructor with 4..9, 15..17, 31..33 and 40 components (every count up to 9 and the neighbours of the powers of two) (beyond any small
 /// fixed-size shortcut), images with the placeholder first / in the middle / last
 pub fn wide_terms() -> Vec<R> {
     let mut out = vec![];
-    for n in [9usize, 17, 40] {
+    for n in [4usize, 5, 6, 7, 8, 9, 15, 16, 17, 31, 32, 33, 40] {
         let elems: Vec<R> = (0..n).map(|i| if i % 4 == 3 { R::atom(Tag::IVar, &format!("v{i}")) } else { R::word(&format!("w{i}")) }).collect();
         for &tag in COMPOUND_TAGS.iter() {
             match tag.shape() {
@@ -220,8 +220,9 @@ pub fn u_term(f: &F, tier: Tier) -> Vec<R> {
             let mut items = reps.clone();
             items.extend([R::word("b1"), R::atom(Tag::QVar, "x-y"), R::interval(0)]);
             apply_all(&items, 2, &mut out); // T2(2)
-            out.extend(towers(8));
-            out.extend(towers(40)); // beyond any plausible fixed nesting limit (16, 32)
+            for d in [2usize, 3, 4, 5, 6, 7, 8, 15, 16, 17, 31, 32, 33, 40] {
+                out.extend(towers(d)); // every depth up to 8, the neighbours of 16 and 32, and 40
+            }
             out.extend(wide_terms());
         }
         Tier::Thorough => {
